@@ -41,3 +41,6 @@ Section info_ind2.
                     end) c)
     end.
 End info_ind2.
+
+(* one row of the format table of internal/file/filetype.go, as dumped from the running code *)
+Record row := mkrow { r_patterns : list bytes; r_magics : list bytes; r_sniffer : bytes; r_parser : bytes }.
